@@ -144,6 +144,14 @@ def check(ctx):
 
     _check_eval_fn(ctx, repo)
     _check_cond(ctx, repo)
+    # ---------------- R6: projection flattening and call evaluation do not write into shared structures
+    ctx.rule("C03-R6", "projection flattening never writes into the stored projection layers (FRESH-WRITE on types.py and the call path), and call() evaluates every function node through a fresh wrapper")
+    from .. import fresh
+    from . import c04, c05
+    summ = fresh.compute_summaries(repo, cg, c04.SUMMARY_MODULES)
+    n, _seen = c04.fresh_write_scan(ctx, repo, cg, summ, "C03-R6", ("types",), ("interpreter:KlongInterpreter._eval_fn", "interpreter:KlongInterpreter._resolve_fn"))
+    ctx.floor("C03-R6", "in-place writes in the projection/call path", n, 3)
+    c05.check_rewrap(ctx, repo, "C03-R6")
 
 
 def _check_eval_fn(ctx, repo):
@@ -322,6 +330,8 @@ SEEDS = [
     Seed("two-resolution-passes", "fault", "interpreter",
          "        f, f_args, f_arity = self._resolve_fn(f, f_args, f_arity)\n        f, f_args, f_arity = self._resolve_fn(f, f_args, f_arity)\n        f, f_args, f_arity = self._resolve_fn(f, f_args, f_arity)\n",
          "        f, f_args, f_arity = self._resolve_fn(f, f_args, f_arity)\n        f, f_args, f_arity = self._resolve_fn(f, f_args, f_arity)\n", rule="C03-R5"),
+    Seed("projection-layer-filled-in-place", "fault", "types", "    sparse_fa = np.copy(arr[0])", "    sparse_fa = arr[0]", rule="C03-R6"),
+    Seed("call-skips-op-nodes", "fault", "interpreter", "        return self.eval(KGCall(x.a, x.args, x.arity) if isinstance(x, KGFn) else x)", "        return self.eval(KGCall(x.a, x.args, x.arity) if isinstance(x, KGFn) and not x.is_op() else x)", rule="C03-R6"),
     Seed("refactor-return-temp", "refactor", "interpreter",
          "        try:\n            return f(self, self._context) if issubclass(type(f), KGLambda) else self.call(f)\n        finally:\n            self._context.pop()",
          "        try:\n            result = f(self, self._context) if issubclass(type(f), KGLambda) else self.call(f)\n            return result\n        finally:\n            self._context.pop()"),
